@@ -164,6 +164,17 @@ func (x *Exec) remat(st *State, v ssa.Value) Value {
 			return st.env[v]
 		}
 	case *ssa.UnOp:
+		if ins.Op == token.MUL {
+			// a load whose location is never written in this function still has its value
+			if k := staticKey(ins.X); k != "?" && !x.fx.touches(k) && !x.fx.modAll {
+				if _, isAlloc := ins.X.(*ssa.Alloc); !isAlloc {
+					quiet := st.fx.eng.quiet(st)
+					defer quiet()
+					x.step(st, x.fx.fn, ins, true)
+					return st.env[v]
+				}
+			}
+		}
 		if ins.Op == token.SUB || ins.Op == token.NOT || ins.Op == token.XOR {
 			quiet := st.fx.eng.quiet(st)
 			defer quiet()
@@ -256,6 +267,21 @@ func (x *Exec) step(st *State, fn *ssa.Function, ins ssa.Instruction, top bool) 
 		switch ins.Op {
 		case token.MUL:
 			x.nilCheck(st, ins, xv)
+			if xv.K == VRef && xv.Orig != nil {
+				// *(*string)(unsafe.Pointer(&b)) : no-copy string view of a byte slice
+				if op, ok := xv.Orig.Underlying().(*types.Pointer); ok {
+					if sl, ok := op.Elem().Underlying().(*types.Slice); ok && kindOf(ins.Type()) == VStr {
+						if bt, ok := sl.Elem().Underlying().(*types.Basic); ok && bt.Kind() == types.Uint8 {
+							bv := st.loadAt(Addr{Root: xv.T, Key: rootKey(op.Elem()), Ty: op.Elem()})
+							h := st.heapTermIn(st.heap, "elem:"+typeKey(sl.Elem()), 2, "Int")
+							r := Value{K: VStr, T: fmt.Sprintf("(bytes_str (select %s %s) %s %s)", h, bv.Arr, bv.Off, bv.Len), Ty: ins.Type()}
+							st.env[ins] = r
+							return one
+						}
+					}
+				}
+				st.unsupported("load through an unsafe pointer conversion")
+			}
 			st.env[ins] = st.loadAt(x.addrOf(st, xv, ins))
 		case token.SUB:
 			if xv.K == VReal {
@@ -766,9 +792,8 @@ func (x *Exec) convert(st *State, ins *ssa.Convert) Value {
 		et := from.Underlying().(*types.Slice).Elem()
 		r := st.fresh(to, "str")
 		if b, ok := et.Underlying().(*types.Basic); ok && b.Kind() == types.Uint8 {
-			st.assume(fmt.Sprintf("(= (slen %s) %s)", r.T, v.Len))
 			h := st.heapTermIn(st.heap, "elem:"+typeKey(et), 2, "Int")
-			st.assume(fmt.Sprintf("(forall ((i Int)) (! (=> (and (<= 0 i) (< i %s)) (= (sat %s i) (select (select %s %s) (+ %s i)))) :pattern ((sat %s i))))", v.Len, r.T, h, v.Arr, v.Off, r.T))
+			return Value{K: VStr, T: fmt.Sprintf("(bytes_str (select %s %s) %s %s)", h, v.Arr, v.Off, v.Len), Ty: to}
 		} else {
 			h := st.heapTermIn(st.heap, "elem:"+typeKey(et), 2, "Int")
 			st.assume(fmt.Sprintf("(= %s (str_of_runes (select %s %s) %s %s))", r.T, h, v.Arr, v.Off, v.Len))
@@ -781,7 +806,11 @@ func (x *Exec) convert(st *State, ins *ssa.Convert) Value {
 		st.assume(fmt.Sprintf("(=> (and (<= 0 %s) (< %s 128)) (and (= (slen %s) 1) (= (sat %s 0) %s)))", v.T, v.T, r.T, r.T, v.T))
 		return r
 	case fk == VRef && tk == VRef:
-		return Value{K: VRef, T: v.T, Ty: to}
+		orig := v.Orig
+		if orig == nil {
+			orig = from
+		}
+		return Value{K: VRef, T: v.T, Ty: to, Orig: orig}
 	}
 	st.unsupported(fmt.Sprintf("convert %s -> %s", typeKey(from), typeKey(to)))
 	return Value{}
